@@ -530,6 +530,37 @@ pub fn run_c16(ctx: &Ctx, rep: &mut Report) {
             }
         }
         if a == 0 {
+            // every way of obtaining a Square yields one of the 64 (the tables are indexed by it unchecked)
+            for n in 0..=255u8 {
+                rep.evaluations += 1;
+                let q = Square::new(n);
+                if q.to_index() != (n & 63) as usize || q != ALL_SQUARES[(n & 63) as usize] {
+                    rep.violation("C16/square/new-out-of-range", format!("Square::new({}) has index {}", n, q.to_index()));
+                } else {
+                    std::hint::black_box(get_king_moves(q).0);
+                }
+            }
+            for ri in 0..24usize {
+                for fi in 0..24usize {
+                    rep.evaluations += 1;
+                    let q = Square::make_square(Rank::from_index(ri), File::from_index(fi));
+                    if q.to_index() != (ri % 8) * 8 + fi % 8 {
+                        rep.violation("C16/square/make_square-out-of-range", format!("make_square(rank index {}, file index {}) has index {}", ri, fi, q.to_index()));
+                    }
+                }
+            }
+            for c1 in b'a'..=b'j' {
+                for c2 in b'0'..=b'9' {
+                    let t = format!("{}{}", c1 as char, c2 as char);
+                    rep.evaluations += 1;
+                    let want = if c1 <= b'h' && (b'1'..=b'8').contains(&c2) { Some(((c2 - b'1') * 8 + (c1 - b'a')) as usize) } else { None };
+                    let got = Square::from_str(&t).ok().map(|q| q.to_index());
+                    if got != want {
+                        rep.violation("C16/square/from-text", format!("Square::from_str({:?}) gives index {:?} want {:?}", t, got, want));
+                    }
+                }
+            }
+            rep.count("ev_constructor_sweeps");
             let mut e = 0u64;
             for s in 0..64u8 {
                 let (sf, sr) = fr(s);
@@ -571,6 +602,15 @@ pub fn c13_text(rep: &mut Report, text: &str) {
             if !text.starts_with(&s) {
                 rep.violation("C13/move-parse/not-a-prefix", format!("from_str({:?}) = Ok({}) which is not a prefix of the input", text, s));
             }
+            // what parsing returns is a move between two of the 64 squares (and usable as such: the
+            // lookups below index tables by it)
+            for q in [m.get_source(), m.get_dest()].iter() {
+                if q.to_index() >= 64 || ALL_SQUARES[q.to_index() & 63] != *q {
+                    rep.violation("C13/move-parse/square-out-of-range", format!("from_str({:?}) contains square index {}", text, q.to_index()));
+                } else {
+                    std::hint::black_box(get_king_moves(*q).0 ^ between(*q, Square::A1).0);
+                }
+            }
         }
         Ok(Err(_)) => rep.count("ev_move_parse_err"),
     }
@@ -583,6 +623,11 @@ pub fn c13_text(rep: &mut Report, text: &str) {
             let s = format!("{}", q);
             if !text.starts_with(&s) {
                 rep.violation("C13/square-parse/not-a-prefix", format!("Square::from_str({:?}) = Ok({})", text, s));
+            }
+            if q.to_index() >= 64 || ALL_SQUARES[q.to_index() & 63] != q {
+                rep.violation("C13/square-parse/out-of-range", format!("Square::from_str({:?}) = square index {}", text, q.to_index()));
+            } else {
+                std::hint::black_box(get_knight_moves(q).0 ^ line(q, Square::H8).0);
             }
         }
         Ok(Err(_)) => rep.count("ev_square_parse_err"),
